@@ -429,3 +429,72 @@ Theorem insert_child_row_first_cell :
 Proof. exact FragTables.insert_child_row_first_cell. Qed.
 Print Assumptions insert_child_row_first_cell.
 
+
+(* ---------- markers never change the text (Proofs/MarkerErase.v): the tree with all fragment markers erased renders to the same strings and borders, same outcome (overflow off; marker_clean = no marker directly below ol/ul, none next to the sole digits text of a sup - each side condition has a counterexample confirmed on the implementation) ---------- *)
+From H2T Require Import Base Tagged Wrap Sub Css Dom Render Api CssParse Proofs.CssTotal Proofs.WrapInv Proofs.RenderWidth Proofs.Conserve Proofs.Footnotes Proofs.AnnBalance Proofs.RenderConserve Proofs.OptionRel Proofs.Compose Proofs.RenderTotal Proofs.FragStream Proofs.SimRel Proofs.Prune Proofs.FragTables Proofs.MarkerErase.
+Theorem c14_erase_strings :
+  forall (d : deco) (mw : N) (o : ropts) (width : N) (n : rnode),
+       marker_clean n = true ->
+       o_allow_overflow o = false ->
+       res_rel
+         (fun s s' : subr =>
+          res_rel same_text (sub_into_lines s) (sub_into_lines s') /\ sub_into_string s = sub_into_string s')
+         (render_tree d mw o width n) (render_tree d mw o width (FragTables.erase n)).
+Proof. exact MarkerErase.c14_erase_strings. Qed.
+Print Assumptions c14_erase_strings.
+
+Theorem erase_render_tree :
+  forall (d : deco) (mw : N) (o : ropts) (width : N) (n : rnode),
+       marker_clean n = true ->
+       o_allow_overflow o = false ->
+       rss SR (render_tree d mw o width n) (render_tree d mw o width (FragTables.erase n)).
+Proof. exact MarkerErase.erase_render_tree. Qed.
+Print Assumptions erase_render_tree.
+
+Theorem c14_erase_string_route :
+  forall (c : config) (tree : rnode) (w : N),
+       marker_clean tree = true ->
+       c_overflow c = false ->
+       (do s <- render_with_context c tree w; sub_into_string s) =
+       (do s <- render_with_context c (FragTables.erase tree) w; sub_into_string s).
+Proof. exact MarkerErase.c14_erase_string_route. Qed.
+Print Assumptions c14_erase_string_route.
+
+Theorem c14_erase_string_from_read :
+  forall (inl : list (text * text) -> res (list styledecl)) (dr : list node -> res (list ruleset))
+         (c : config) (doc : list node) (w : N) (tree : rnode),
+       to_render_tree inl dr c doc = Ok tree ->
+       marker_clean tree = true ->
+       c_overflow c = false ->
+       string_from_read inl dr c doc w =
+       (do s <- render_with_context c (FragTables.erase tree) w; sub_into_string s).
+Proof. exact MarkerErase.c14_erase_string_from_read. Qed.
+Print Assumptions c14_erase_string_from_read.
+
+Theorem c14_erase_lines_from_read :
+  forall (inl : list (text * text) -> res (list styledecl)) (dr : list node -> res (list ruleset))
+         (c : config) (doc : list node) (w : N) (tree : rnode),
+       to_render_tree inl dr c doc = Ok tree ->
+       marker_clean tree = true ->
+       c_overflow c = false ->
+       res_rel (fun ls ls' : list tline => map tl_string ls = map tl_string ls')
+         (lines_from_read inl dr c doc w)
+         (do s <- render_with_context c (FragTables.erase tree) w;
+          do ls <- sub_into_lines s; Ok (map rline_into_tagged ls)).
+Proof. exact MarkerErase.c14_erase_lines_from_read. Qed.
+Print Assumptions c14_erase_lines_from_read.
+
+Theorem c14_erase_strings_overflow :
+  forall (d : deco) (mw : N) (o : ropts) (width : N) (n : rnode) (s : subr) (ls : list rline),
+       marker_clean n = true ->
+       o_allow_overflow o = false ->
+       render_tree d mw o width n = Ok s ->
+       sub_into_lines s = Ok ls ->
+       exists (s1 s2 : subr) (ls2 : list rline),
+         render_tree d mw (with_overflow o) width n = Ok s1 /\
+         sub_into_lines s1 = Ok ls /\
+         render_tree d mw (with_overflow o) width (FragTables.erase n) = Ok s2 /\
+         sub_into_lines s2 = Ok ls2 /\ same_text ls ls2.
+Proof. exact MarkerErase.c14_erase_strings_overflow. Qed.
+Print Assumptions c14_erase_strings_overflow.
+
